@@ -34,6 +34,9 @@ try:
         r = sh(f"cd /verif && VERIF_REPO={wt} ./check {c} --no-evidence", env=dict(os.environ))
         lines = [l for l in r.stdout.splitlines() if l.startswith("VIOLATION") or l.startswith("  clause=") or l.startswith("HARNESS")]
         results[c] = {"caught": r.returncode == 1, "rc": r.returncode, "wall_s": round(time.time() - t0, 1), "lines": lines[:6]}
+    if "first_contact" not in meta and os.environ.get("KEEP_FIRST_CONTACT"):
+        # the result of the blind evaluation (before any strengthening)
+        meta["first_contact"] = meta.get("checks_run", {})
     meta["checks_run"] = results
     meta["repo_head"] = head
     meta["how_run"] = "patch applied in a scratch worktree of /repo HEAD; ./check <ID> --tier quick with VERIF_REPO=<worktree> (final re-check of all seeded changes)"
